@@ -118,7 +118,17 @@ def run(A, R: Report, thorough: bool):
         R.check(ok, 'R19.3', 'TestChain.__init__: Config(data=...)', key_of('params', shown), 'data = the parameters argument',
                 f'the helper\'s config data is `{shown}`: parameters are filtered or rewritten before the task sees them (a real chain passes them as given)', where=where(tinit, c))
     sup = [n for n in A.typer.own_nodes(tinit) if isinstance(n, ast.Call) and src(n.func) == 'super().__init__']
-    R.check(bool(sup) and all(len(c.args) == 1 and src(c.args[0]) == 'self.config' and not c.keywords for c in sup), 'R19.3', 'TestChain.__init__: super().__init__', key_of('super-init'), 'base chain built from the helper config (parameter mode default)',
+    cfg_stores = [n for n in inl(A, tinit) if isinstance(n, ast.Assign) and any(src(t_) == 'self.config' for t_ in n.targets)]
+
+    def is_helper_config(e):
+        """self.config, or the local that is stored in self.config, or the Config(...) construction itself"""
+        if src(e) == 'self.config':
+            return True
+        if isinstance(e, ast.Name) and any(isinstance(st.value, ast.Name) and st.value.id == e.id for st in cfg_stores):
+            return subst_single_assign(A, tinit, e) in cfgs
+        return False
+
+    R.check(bool(sup) and all(len(c.args) == 1 and is_helper_config(c.args[0]) and not c.keywords for c in sup), 'R19.3', 'TestChain.__init__: super().__init__', key_of('super-init'), 'base chain built from the helper config (parameter mode default)',
             'the base Chain is not constructed from the helper\'s config with default settings', where=where(tinit))
 
     # ---- R19.4
